@@ -420,6 +420,9 @@ func (r *UnitRun) finish(st *State, vals []Val, n *ast.ReturnStmt) {
 			}
 			r.obligeStatic(st, "own", fmt.Sprintf("%s.result%d", retSite, i), ok, node, "slice returned to the caller is freshly allocated")
 		}
+		if v.K == KFunc && r.unit.Returns == "fresh" {
+			r.obligeStatic(st, "own", fmt.Sprintf("%s.fresh%d", retSite, i), v.Fn.term != "" && st.fresh(v.Fn.term) || v.Fn.term == "" && v.Fn.unit != nil && v.Fn.unit.Lit != nil, node, "returned function value is a closure created in this call")
+		}
 		if v.K == KRef && r.unit.Returns == "fresh" && isTensorType(rv.typ) {
 			// only checked when no error is returned alongside
 			r.obligeStatic(st, "own", fmt.Sprintf("%s.fresh%d", retSite, i), st.fresh(v.T) || r.errReturned(bound), node, "returned object is allocated in this call")
@@ -456,7 +459,12 @@ func (r *UnitRun) finish(st *State, vals []Val, n *ast.ReturnStmt) {
 		// the ghost step of the protocol: advance the ghosts it modifies, assume its ghost postconditions, then the closure's
 		// invariant must hold again
 		for _, m := range au.Modifies {
-			if g, ok := st.ghost[m]; ok && g.K == KRef {
+			if strings.HasPrefix(m, "genIdx(") {
+				f := r.genIdxTarget(st, m, b2, "ghost step of "+au.Name)
+				cur := st.ghost["genIdx"]
+				cur.T = sx("store", cur.T, f, r.fresh("step_genIdx", idxSort))
+				st.ghost["genIdx"] = cur
+			} else if g, ok := st.ghost[m]; ok && g.K == KRef {
 				st.ghost[m] = Val{K: KRef, T: r.fresh("step_"+m, g.Sort), Sort: g.Sort, Go: g.Go}
 			}
 		}
@@ -639,11 +647,19 @@ func (r *UnitRun) havocLoop(st *State, m *modSet, extraNames []string, n ast.Nod
 	}
 	for _, u := range m.units {
 		for _, mod := range u.Modifies {
-			if strings.Contains(mod, ".") && !strings.HasPrefix(mod, "*") {
+			if strings.HasPrefix(mod, "genIdx(") {
+				// generator indices: the whole map is unknown at the loop head (the invariant restates what is needed)
+				g := st.ghost["genIdx"]
+				st.ghost["genIdx"] = Val{K: KRef, T: r.fresh("loop_genIdx", g.Sort), Sort: g.Sort}
+			} else if strings.Contains(mod, ".") && !strings.HasPrefix(mod, "*") {
 				fi, ok := r.prog.World.fields[mod]
 				if !ok {
 					parts := strings.SplitN(mod, ".", 2)
 					if sty := r.structByName(parts[0]); sty != nil {
+						fi = r.prog.World.field(sty, parts[1])
+						ok = true
+					} else if sty := u.paramStruct(parts[0]); sty != nil {
+						// "<param>.<field>": inside a loop the whole field map is unknown at the head
 						fi = r.prog.World.field(sty, parts[1])
 						ok = true
 					}
